@@ -14,6 +14,11 @@ Theorem code_spin_range_is_model : forall u n nz, 0 < u -> 0 <= n ->
   = match spin_range_u u n nz with Some l => Ok l | None => Err EValue end.
 Proof. exact gen_create_spin_range_is_model. Qed.
 
+(** the result of the translated while loop does not depend on the fuel once it suffices (EFuel is never a value) *)
+Theorem code_spin_range_fuel_irrelevant : forall u n nz fuel, 0 < u -> 0 <= n -> (Z.to_nat (2 * n) + 2 <= fuel)%nat ->
+  gen_create_spin_range u fuel n nz = gen_create_spin_range u (Z.to_nat (2 * n) + 2) n nz.
+Proof. exact gen_spin_range_fuel_irrelevant. Qed.
+
 (** the sums over spin projections run over exactly -s..s in unit steps (units of 1/2), for every spin *)
 Theorem code_spin_range_spec : forall s2 : nat,
   gen_create_spin_range 2 (spin_fuel s2) (Z.of_nat s2) false = Ok (full_range s2).
@@ -49,6 +54,7 @@ Example code_spin_range_examples :
 Proof. repeat split; vm_compute; reflexivity. Qed.
 
 Print Assumptions code_spin_range_is_model.
+Print Assumptions code_spin_range_fuel_irrelevant.
 Print Assumptions code_spin_range_spec.
 Print Assumptions code_spin_range_never_raises.
 Print Assumptions code_spectator_spec.
